@@ -4,7 +4,17 @@ Streams are recorded from a paramiko sender keyed through the production activat
 (E2 bench): NEWKEYS in clear, then 2-6 encrypted packets (bodies 0-80 bytes, one larger;
 optionally a second key exchange in the middle, compression, strict kex), for every framing
 class (CTR / CBC / 3DES  x  plain MAC / -96 MAC / ETM MAC, GCM) and generated other suites.
-Only the encrypted part is edited.
+Only the encrypted part is edited.  The direction that carries the stream and the opposite
+direction get different suites (RFC 4253 7.1 negotiates per direction): the receiver under
+test is keyed in BOTH directions through _activate_outbound / _activate_inbound, and the
+opposite direction's style (classic / ETM / GCM) is cycled so that every ordered pair of
+(inbound style, outbound style) occurs.
+
+Long streams: per framing class a stream of >= 520 tiny, pairwise different packets; packet i
+is replayed (inserted), substituted for, or swapped with the packet d places later, for every
+structured distance d in 1,2,3,8,16,17,64,127,128,129,255,256,257,511,512,513 (thorough: up
+to 2049) plus generated distances: counters that are wider than one byte must not be
+compared / advanced modulo anything smaller (sequence number, GCM invocation counter).
 
 Fault plans: exhaustive single-byte XOR (generated non-zero mask per position; thorough adds
 0x01, 0x80, 0xFF), exhaustive single-byte deletion, exhaustive single-byte insertion (generated
@@ -30,10 +40,20 @@ RULE = (
     "(quick: 11 cipher/MAC representatives of the 10 framing classes + 4 with zlib, one generated stream each; thorough: all 72 cipher x MAC "
     "pairs x {none, zlib}, 6 generated streams each, sender role and strict flag alternating); fault plans: "
     "EVERY single-byte XOR (generated mask), deletion and insertion position of the encrypted stream (exhaustive), plus "
-    "hypothesis-generated multi-fault plans (<=4 of flip/delete/insert/truncate/packet swap/drop/duplicate/replay). one case = "
+    "hypothesis-generated multi-fault plans (<=4 of flip/delete/insert/truncate/packet swap/drop/duplicate/replay/replay-at/"
+    "subst-at/swap-at). Direction asymmetry: the opposite direction of every stream has its own generated suite whose style "
+    "(classic/etm/aead) is cycled per inbound style, the receiver under test activates outbound and inbound keys (classes "
+    "asymmetric-suites, styles:<in>/<out>, asymmetric-mac-size). Long streams (class long-stream): per framing class one generated "
+    "stream of 520-560 (thorough 2060-2100) pairwise different tiny packets, optional mid-stream rekey; packet i (generated) is "
+    "replayed at / substituted for / swapped with packet i+d for EVERY d of a structured list (1,2,3,8,16,17,64,127,128,129,255,"
+    "256,257,511,512,513; thorough +1023..1025, 2047..2049) plus generated d (all three kinds for d >= 255, one generated kind "
+    "below; classes replay-distance:<d>, replay-distance>=256, replay-distance%256==0). one case = "
     "(recorded stream, fault plan). non-trivial = the plan changes bytes inside the packets the sender produced (not only "
     "trailing garbage); plans that leave the stream identical are discarded and counted; distinct by SHA-1 of stream+plan"
 )
+
+DISTANCES_QUICK = [1, 2, 3, 8, 16, 17, 64, 127, 128, 129, 255, 256, 257, 511, 512, 513]
+DISTANCES_THOROUGH = DISTANCES_QUICK + [7, 9, 15, 31, 32, 33, 63, 65, 254, 258, 767, 768, 769, 1023, 1024, 1025, 1279, 1280, 1281, 2047, 2048, 2049]
 
 FRAMING_REPRESENTATIVES = [
     ("aes128-ctr", "hmac-sha2-256"),
@@ -85,6 +105,7 @@ def record(spec):
         off += len(plist)
     return {
         "role": other,
+        "dname": dname,  # the direction that carries the stream (= inbound of the receiver under test)
         "strict": spec["strict"],
         "auth_first": spec["auth_first"],
         "epochs": spec["epochs"],
@@ -115,6 +136,19 @@ def apply_plan(chunks, plan):
             i = op[1] % len(ch)
             j = i + 1 + op[2] % (len(ch) - i)
             ch.insert(j, ch[i])
+        elif kind == "replay-at" and ch:
+            # a copy of packet i becomes packet number i+d of the stream (d >= 1)
+            i = op[1] % len(ch)
+            d = 1 + (op[2] - 1) % (len(ch) - i)
+            ch.insert(i + d, ch[i])
+        elif kind in ("subst-at", "swap-at") and len(ch) > 1:
+            # packet i+d is replaced by a copy of packet i / the two change places
+            i = op[1] % (len(ch) - 1)
+            d = 1 + (op[2] - 1) % (len(ch) - 1 - i)
+            if kind == "subst-at":
+                ch[i + d] = ch[i]
+            else:
+                ch[i], ch[i + d] = ch[i + d], ch[i]
     data = bytearray(b"".join(ch))
     for op in plan:
         kind = op[0]
@@ -129,12 +163,20 @@ def apply_plan(chunks, plan):
     return bytes(data)
 
 
+def _dname(stream):
+    return stream.get("dname") or ("c2s" if stream["role"] == "server" else "s2c")
+
+
 def run_receiver(stream, data, frags=()):
     """Feed prelude + edited data to a fresh receiver; returns (delivered list, stop reason)."""
     r = pkt.PPeer(stream["role"], stream["strict"], frags)
     if stream["auth_first"]:
         r.auth()
     r.install(stream["epochs"][0])
+    # a real transport has sent its own NEWKEYS (outbound keys of the opposite direction's suite)
+    # before it reads the peer's: the receiver under test is keyed in both directions
+    r.send_newkeys()
+    r.drain()
     r.feed(stream["prelude"])
     try:
         cmd, body = r.recv_newkeys()
@@ -155,6 +197,8 @@ def run_receiver(stream, data, frags=()):
             if at_rekey:
                 # what Transport does on an honest NEWKEYS; only taken when the message really is NEWKEYS
                 r.install(stream["epochs"][epoch])
+                r.send_newkeys()
+                r.drain()
                 cmd, body = r.recv_newkeys()
                 if cmd == pkt.MSG_NEWKEYS and body == b"":
                     rekeys.pop(0)
@@ -187,7 +231,8 @@ def judge(ctx, stream, plan, frags, classes):
     ctx.case(case, nontrivial, classes)
     delivered, stop = run_receiver(stream, data, frags)
     expected = stream["expected"]
-    fc = pkt.framing_class(*stream["epochs"][0]["c2s"][:2]) + ("+z" if stream["epochs"][0]["c2s"][2] != "none" else "")
+    su = stream["epochs"][0][_dname(stream)]
+    fc = pkt.framing_class(*su[:2]) + ("+z" if su[2] != "none" else "")
     ops = "+".join(sorted(set(op[0] for op in plan)))
     for i, got in enumerate(delivered):
         if i >= len(expected):
@@ -217,27 +262,53 @@ def judge(ctx, stream, plan, frags, classes):
 # ----------------------------------------------------------------------------- exploration
 
 
-def _stream_spec_strategy(S, cipher_mac=None, comps=("none", "zlib", "zlib@openssh.com"), rekey=True, role=None, strict=None):
+def _stream_spec_strategy(S, cipher_mac=None, comps=("none", "zlib", "zlib@openssh.com"), rekey=True, role=None, strict=None, other_style=None, long_n=None):
+    """Sender-side description of one stream.  ``cipher_mac``: suite of the direction that
+    carries the stream (None = generated); the opposite direction gets its own generated suite
+    of style ``other_style`` (None = generated style) in every epoch.  ``long_n`` = (lo, hi):
+    a long stream of lo..hi tiny pairwise different packets instead of the 2-6 packet one."""
     small = S.msg(st.integers(0, 80))
     large = S.msg(st.integers(120, 400))
     msgs1 = st.tuples(st.lists(small, min_size=1, max_size=3), large, st.lists(small, min_size=0, max_size=2)).map(lambda t: t[0] + [t[1]] + t[2])
     msgs2 = st.lists(small, min_size=1, max_size=3)
     suite = (st.tuples(S.cipher, S.mac) if cipher_mac is None else st.just(tuple(cipher_mac))).flatmap(lambda cm: st.sampled_from(comps).map(lambda z: [cm[0], cm[1], z]))
+    other_suite = (S.style if other_style is None else st.just(other_style)).flatmap(S.suite_of_style)
 
-    def keys(su):
-        return st.builds(pkt.keys_dict, S.K, S.H, S.hash, st.just(su), st.just(su))
+    def keys(su, dname):
+        if dname == "c2s":
+            return st.builds(pkt.keys_dict, S.K_small, S.H, S.hash, st.just(su), other_suite)
+        return st.builds(pkt.keys_dict, S.K_small, S.H, S.hash, other_suite, st.just(su))
+
+    def tiny(i, t, tail):
+        # body = 2-byte index (pairwise different packets: a replayed packet never equals the one it displaces) + tail
+        return [t, 2 + len(tail), 4, bytes([i >> 8, i & 0xFF]) + tail]
 
     @st.composite
     def spec(draw):
+        r = role if role is not None else draw(st.sampled_from(["client", "server"]))
+        dname = "c2s" if r == "client" else "s2c"
         su = draw(suite)
-        epochs = [draw(keys(su))]
-        msgs = [draw(msgs1)]
-        if rekey and draw(st.sampled_from([False, False, True])):
-            su2 = [draw(S.cipher), draw(S.mac), su[2]]  # same compression name (C01 finding: not switched off at rekey)
-            epochs.append(draw(keys(su2)))
-            msgs.append(draw(msgs2))
+        epochs = [draw(keys(su, dname))]
+        second = rekey and draw(st.sampled_from([False, False, True]))
+        if second:
+            su2 = [draw(S.cipher), draw(S.mac), su[2]]  # same compression name in the stream direction
+            epochs.append(draw(keys(su2, dname)))
+        if long_n is None:
+            msgs = [draw(msgs1)]
+            if second:
+                msgs.append(draw(msgs2))
+        else:
+            n = draw(st.integers(long_n[0], long_n[1]))
+            types = draw(st.lists(st.integers(0, 255), min_size=1, max_size=5))
+            tails = draw(st.lists(st.binary(max_size=3), min_size=1, max_size=7))
+            all_msgs = [tiny(i, types[i % len(types)], tails[i % len(tails)]) for i in range(n)]
+            if second:
+                cut = draw(st.integers(1, n - 1))
+                msgs = [all_msgs[:cut], all_msgs[cut:]]
+            else:
+                msgs = [all_msgs]
         return {
-            "role": role if role is not None else draw(st.sampled_from(["client", "server"])),
+            "role": r,
             "strict": strict if strict is not None else draw(st.booleans()),
             "auth_first": su[2] == "zlib@openssh.com" or draw(st.sampled_from([False, False, True])),
             "epochs": epochs,
@@ -260,13 +331,51 @@ def _try_record(ctx, spec):
 
 def _classes(stream, extra):
     k = stream["epochs"][0]
-    c, m, z = k["c2s"]
+    dname = _dname(stream)
+    oname = "s2c" if dname == "c2s" else "c2s"
+    c, m, z = k[dname]
     out = ["cipher:" + c, "mac:" + m, "comp:" + z, "framing:" + pkt.framing_class(c, m), "receiver:" + stream["role"]]
+    # inbound style of the receiver under test / style its outbound direction is keyed with
+    out.append("styles:%s/%s" % (pkt.suite_style(c, m), pkt.suite_style(*k[oname][:2])))
+    out += [a for a in pkt.asymmetry_classes(k) if not a.startswith("asymmetric-style:")]
     if len(stream["epochs"]) > 1:
         out.append("mid-stream-rekey")
     if stream["strict"]:
         out.append("strict-kex")
     return out + extra
+
+
+def _distance_classes(d):
+    out = ["replay-distance>=256" if d >= 256 else "replay-distance<256"]
+    if d % 256 == 0:
+        out.append("replay-distance%256==0")
+    return out
+
+
+def long_stream(ctx, stream, structured, generated, raw, frags):
+    """Replay / substitute / swap at a distance on one long stream: packet i becomes (replay-at),
+    replaces (subst-at) or changes places with (swap-at) packet i+d, for EVERY d in
+    ``structured`` and every generated d; i comes from the generated list ``raw``."""
+    n = len(stream["chunks"])
+    base = _classes(stream, ["long-stream"])
+    k = 0
+    kinds = ("replay-at", "subst-at", "swap-at")
+    for di, (d, is_structured) in enumerate([(d, True) for d in structured] + [(1 + g % (n - 2), False) for g in generated]):
+        if d > n - 2:
+            ctx.inconc("long-stream-shorter-than-distance")
+            continue
+        # all three kinds around the byte / two-byte boundaries of a counter; one kind (cycling with the
+        # distance index and a generated offset) elsewhere: every (kind, d) pair occurs over the streams of a run
+        for kind in kinds if d >= 255 else (kinds[(di + raw[-1]) % 3],):
+            i = raw[k % len(raw)] % (n - 1 - d)  # i + d <= n - 2: the op means exactly (i, d) for all three kinds
+            k += 1
+            cls = base + ["plan:" + kind] + _distance_classes(d)
+            if is_structured:
+                cls.append("replay-distance:%d" % d)
+            if judge(ctx, stream, [[kind, i, d]], frags, cls) is False:
+                return False
+    ctx.count("long-streams-enumerated")
+    return True
 
 
 def exhaustive_stream(ctx, stream, mask_seed, extra_masks, frags):
@@ -306,6 +415,14 @@ def run(ctx):
         pairs = [(c, m) for c in pkt.CIPHERS for m in pkt.MACS]
         work = [(cm, z) for cm in pairs for z in ("none", "zlib")]
         extra_masks = [0x01, 0x80, 0xFF]
+    # style of the opposite direction: cycled within each inbound style (offset by the run seed), so that
+    # every ordered (inbound style, outbound style) pair is enumerated in every run
+    seen_style = {}
+    other_styles = []
+    for cm, z in work:
+        ins = pkt.suite_style(*cm)
+        other_styles.append(pkt.STYLES[(seen_style.get(ins, 0) + ctx.seed) % 3])
+        seen_style[ins] = seen_style.get(ins, 0) + 1
     for idx, (cm, z) in enumerate(work):
         if idx % ctx.nworkers != ctx.worker:
             continue
@@ -330,13 +447,57 @@ def run(ctx):
         # generated streams per class (sender role and strict flag alternate with the class index);
         # collect-then-continue: a failing (stream, single edit) is already minimal, no shrinking over streams
         strat = st.tuples(
-            _stream_spec_strategy(S, cm, (z,), rekey=True, role=("client", "server")[idx % 2], strict=bool((idx // 2) % 2)), mask_seed, S.frags
+            _stream_spec_strategy(S, cm, (z,), rekey=True, role=("client", "server")[idx % 2], strict=bool((idx // 2) % 2), other_style=other_styles[idx]),
+            mask_seed,
+            S.frags,
         )
         ctx.explore(strat, body, 1 + ctx.scale(1, 6), shrink=False, seed_offset=10 + idx)
         if ctx.unknown:
             complete[0] = False
             break
     ctx.exhaustive = complete[0]
+
+    # -- long streams: replay / substitution / swap at structured distances, every framing class
+    if ctx.quick:
+        lwork = [(cm, "none") for cm in FRAMING_REPRESENTATIVES] + [(FRAMING_REPRESENTATIVES[i], "zlib") for i in (1, 5, 10)]
+        structured, long_n, n_gen = DISTANCES_QUICK, (520, 560), 6
+    else:
+        lwork = work
+        structured, long_n, n_gen = sorted(DISTANCES_THOROUGH), (2060, 2100), 24
+    for idx, (cm, z) in enumerate(lwork):
+        if idx % ctx.nworkers != ctx.worker or ctx.unknown:
+            continue
+        if ctx.out_of_time():
+            complete[0] = False
+            break
+
+        state = {"n": 0}
+
+        def lbody(drawn, state=state):
+            spec, generated, raw, frags = drawn
+            state["n"] += 1
+            if state["n"] == 1:
+                return  # the all-minimal first example
+            stream = _try_record(ctx, pkt.norm_case(spec))
+            if stream is None:
+                complete[0] = False
+                return
+            if long_stream(ctx, stream, structured, generated, raw, frags) is False:
+                complete[0] = False
+
+        lstrat = st.tuples(
+            _stream_spec_strategy(S, cm, (z,), rekey=True, role=("client", "server")[(idx + 1) % 2], strict=bool((idx // 2 + 1) % 2), long_n=long_n),
+            st.lists(st.integers(0, 1 << 20), min_size=n_gen, max_size=n_gen),
+            st.lists(st.integers(0, 1 << 20), min_size=16, max_size=16),
+            st.one_of(st.just([]), st.just([]), S.frags),
+        )
+        ctx.explore(lstrat, lbody, 1 + ctx.scale(1, 2), shrink=False, seed_offset=500 + idx)
+    ctx.exhaustive = complete[0]
+    ctx.note(
+        "long_streams",
+        "per framing class a stream of %d-%d tiny pairwise different packets; replay-at / subst-at / swap-at of a generated packet i with i+d for every d in %r + %d generated d"
+        % (long_n[0], long_n[1], structured, n_gen),
+    )
     ctx.note("exhaustive_subdomain", "all single-byte XOR(one generated mask; thorough +0x01,0x80,0xFF)/deletion/insertion positions of every recorded stream enumerated in this run")
     ctx.assume("forging a 96-bit (or longer) MAC/tag by a random edit is treated as impossible")
 
@@ -351,6 +512,7 @@ def run(ctx):
         st.tuples(st.just("drop"), st.integers(0, 7)),
         st.tuples(st.just("dup"), st.integers(0, 7)),
         st.tuples(st.just("replay"), st.integers(0, 7), st.integers(0, 7)),
+        st.tuples(st.sampled_from(["replay-at", "subst-at", "swap-at"]), st.integers(0, 7), st.integers(1, 7)),
     ).map(list)
     multi = st.tuples(_stream_spec_strategy(S), st.lists(op, min_size=1, max_size=4), S.frags)
 
